@@ -30,7 +30,7 @@ COMPONENTS = {
     'real': ['singlecellmultiomics.molecule.MoleculeIterator', 'Molecule.can_be_yielded/add_fragment', 'NlaIIIFragment', 'NlaIIIMolecule', 'pysam.AlignedSegment'],
     'stub': [],
 }
-REQUIRED_PROBES = ['abandoned_pass_then_full_pass', 'single_end_long_reads', 'plain_chained_fragments', 'ejection_popped', 'non_prefix_pop_list', 'final_flush_nonempty', 'duplicate_arrives_after_ejectable_unrelated']
+REQUIRED_PROBES = ['same_coordinates_on_two_contigs', 'abandoned_pass_then_full_pass', 'single_end_long_reads', 'plain_chained_fragments', 'ejection_popped', 'non_prefix_pop_list', 'final_flush_nonempty', 'duplicate_arrives_after_ejectable_unrelated']
 EXHAUSTIVE_NOTE = 'check_eject_every is enumerated exhaustively (None, 0..n) per sampled input and pooling method; inputs and cache sizes are sampled'
 
 
@@ -96,7 +96,12 @@ def generate(seed, tier):
                     g['L'] = L
                     g['site'] = o['site']
             out.append(g)
-        frags = [dict(g, n=i) for i, g in enumerate(out) if g['site'] - g['L'] > 10]
+        if ncontig > 1 and w.random() < 0.5:
+            # the same coordinates, cell and UMI on another contig: still a different molecule
+            for g in list(out):
+                if w.random() < 0.3:
+                    out.append(dict(g, ctg=(g['ctg'] + 1) % ncontig, mol=10000 + g['mol']))
+        frags = [dict(g, n=i) for i, g in enumerate(out) if g['site'] - g['L'] > 10][:60]
     layout = 'paired-short-reads'
     if w.random() < 0.3:
         # single-end long reads: the read IS the fragment; a single-end read arrives at its start and triggers the check at its end,
@@ -170,6 +175,11 @@ def execute(case):
 
     if kind == 'plain':
         probe('plain_chained_fragments')
+        seen_xy = {}
+        for f in frags:
+            seen_xy.setdefault((f['cell'], f['site'], f['L'], f['rev'], f['umi']), set()).add(f['ctg'])
+        if any(len(v) > 1 for v in seen_xy.values()):
+            probe('same_coordinates_on_two_contigs')
     if p.get('layout') == 'single-end-long-reads':
         probe('single_end_long_reads')
 
